@@ -101,19 +101,21 @@ extern ssize_t mpt_encode_cobs(MPT_STRUCT(encode_state) *info, const struct iove
 	}
 	/* message deletion */
 	if (!src) {
-		struct iovec tmp;
-		ssize_t pos = info->done;
+		const uint8_t *fin = cobs->iov_base;
+		size_t pos = info->done;
 		
-		/* message in progress */
+		/* message in progress: back to end of last finished message */
 		if (info->_ctx) {
+			while (pos && fin[pos - 1]) --pos;
 			--len;
 		}
-		tmp.iov_base = (void *) src;
+		/* remove finished messages */
 		while (len--) {
-			tmp.iov_len  = pos;
-			if ((pos = mpt_memrchr(&tmp, 1, 0)) < 0) {
+			if (!pos) {
 				return MPT_ERROR(BadValue);
 			}
+			--pos;
+			while (pos && fin[pos - 1]) --pos;
 		}
 		info->_ctx = 0;
 		info->done = pos;
